@@ -282,7 +282,7 @@ type caseRef struct {
 func main() {
 	kit.Main(&kit.Check{
 		ID: "C04", Level: "exploration",
-		Rule: "(A) filter worlds (checks/c04/filter.go): one case = one world (a slot sequence as a one-site basic / basic-mutable / overlay world, or 20 consecutive sequences as the sites of one compact world) x slot type x without/with sentinels, simplest-first by sequence length; inside a case every spatial query of every site in every form is one evaluation (Evals), non-trivial (Distinct) when the reference or the returned result is non-empty. Oracle: FindFeatures(form) returns exactly, each once, the features f of EachFeature(w) for which the form holds as set algebra: the spatial query q -> q.Matches(f, w) (the query's own test), #t=a / #e=y -> the tags the harness itself gave f, Typed[T] -> type(f) = T and the inner form, Intersection -> both operands, Union -> either. Per query the slots are classified M / R (covering-only candidate: q.Matches false, S2 covering MaxLevel 16 MaxCells 5 of the feature meets that of the query region) / F only to report which runs of consecutive covering-only candidates occurred (outcomes fw:consecutive-covering-only-candidates:len<k>:<position>, fw:slots-as-designed:<family>). (B) every (anchor scene, world implementation, query) of the menus in checks/c04/menu.go; one case = one query against one world, evaluated against every feature of the world (Evals = features + wrapped forms). Non-trivial = the brute-force result is non-empty or FindFeatures returned something; distinct by (scene, world, query). Oracle: multiset of IDs returned by FindFeatures(q) == {f in EachFeature(w) : indexed(f) and q.Matches(f, w)}, each once (MightIntersect, whose Matches is constantly true, is only required to be duplicate-free, within the indexed features, and a superset of the exact cap query's matches); every exact q also as Typed[T](q) for T in point/path/area/relation and as Intersection with #menu=path in both operand orders, each required to return exactly the brute-force matches of q of that type, once (a match the bare FindFeatures(q) already misses is reported by the bare query only).",
+		Rule: "(A) filter worlds (checks/c04/filter.go): one case = one world (a slot sequence as a one-site basic / basic-mutable / overlay world, or 20 consecutive sequences as the sites of one compact world) x slot type x without/with sentinels, simplest-first by sequence length; inside a case every spatial query of every site in every form is one evaluation (Evals), non-trivial (Distinct) when the reference or the returned result is non-empty. Oracle: FindFeatures(form) returns exactly, each once, the features f of EachFeature(w) for which the form holds as set algebra: the spatial query q -> q.Matches(f, w) (the query's own test), #t=a / #e=y -> the tags the harness itself gave f, Typed[T] -> type(f) = T and the inner form, Intersection -> both operands, Union -> either. Per query the slots are classified M / R (covering-only candidate: q.Matches false, S2 covering MaxLevel 16 MaxCells 5 of the feature meets that of the query region) / F only to report which runs of consecutive covering-only candidates occurred (outcomes fw:consecutive-covering-only-candidates:len<k>:<position>, fw:slots-as-designed:<family>). (B, C) every (anchor scene, world implementation, query) of the menus in checks/c04/menu.go and of the straddle scenes in checks/c04/straddle.go; one case = one query against one world, evaluated against every feature of the world (Evals = features + wrapped forms). Non-trivial = the brute-force result is non-empty or FindFeatures returned something; distinct by (scene, world, query). Oracle: multiset of IDs returned by FindFeatures(q) == {f in EachFeature(w) : indexed(f) and q.Matches(f, w)}, each once (MightIntersect, whose Matches is constantly true, is only required to be duplicate-free, within the indexed features, and a superset of the exact cap query's matches); every exact q also as Typed[T](q) for T in point/path/area/relation and as Intersection with #menu=path in both operand orders, each required to return exactly the brute-force matches of q of that type, once (a match the bare FindFeatures(q) already misses is reported by the bare query only).",
 		Assumptions: []string{
 			"indexed = every feature except points carrying no tag besides their location (ingest.TokensForFeature gives those no tokens)",
 			"features that the E7 rounding of the compact encoding would collapse or move (raw S2 positions, leaf-cell-sized and face-sized polygons given in full precision) are not given to the compact world; the compact world gets the E7 variants",
@@ -312,6 +312,28 @@ func main() {
 					}
 				}
 			}
+			// straddle scenes (straddle.go), run like the scenes above
+			nB, nBq, nBf := len(cases), len(qs[0]), nf/len(as)
+			sas := straddleAnchors(tier)
+			nSq, nSf := 0, 0
+			var casesC []caseRef
+			for _, a := range sas {
+				sc, q := buildStraddleScene(a)
+				scenes = append(scenes, sc)
+				qs = append(qs, q)
+				nSq, nSf = len(q), len(sc.feats)
+				for _, k := range kinds {
+					for j := range q {
+						casesC = append(casesC, caseRef{len(scenes) - 1, k, j})
+					}
+				}
+			}
+			// order: filter worlds, straddle scenes, anchor scenes
+			cases = append(casesC, cases...)
+			var sNames []string
+			for _, a := range sas {
+				sNames = append(sNames, a.name)
+			}
 			nq := 0
 			for _, fq := range fwScenes(geos, [][]int{{0}}, fPoint, true).sites[0].queries(fPoint, nil) {
 				if fq.build != nil {
@@ -323,9 +345,10 @@ func main() {
 			if tier == "thorough" {
 				seqs = "every sequence of 1..4 slots over {M-,Ma,R-,Ra,Fa} and of 5 slots over {M-,Ma,R-,Ra}"
 			}
-			bound := fmt.Sprintf("(A) filter worlds at anchor %s: %s (M = true match of every query at the hot spot, R = inside the level-16 covering cell of every query but 30-80 m outside every exact shape, F = 1 km away; a = tagged #t=a; slots have consecutive IDs of one type) = %d sequences x slot type {point,path,area} x {no sentinels, one sentinel match of every geometry type + relation + collection in a later namespace}; each as a one-site world of kinds %v, and in compact worlds of %d sites (consecutive sequences, sites 40 cells apart) = %d worlds; per site %d spatial queries (cap 20 m, level-20 cell, point, polyline, multipolygon of 1 and of 2 polygons, intersects-feature point/path/area sentinel; the last three only with sentinels) x %d forms without / %d with sentinels (quick: bare, Typed x {point,path,area,relation,collection}, Intersection with #t=a and with #e=y (all features) in both operand orders, Union with #t=a in both orders, Typed[slot type] over those six, Intersection of Typed[slot type] with #t=a in both orders, Intersection in both orders with a second cap holding R slots 0..2; thorough: also Union with #e=y, Union of Typed with #t=a, Union with the second cap, and with sentinels the nesting for all three geometry types). (B) %d anchor cells (level 16; thorough also levels 8, 12, 20, 24) x %d world kinds %v x ~%d queries per scene; ~%d features per scene; cap radii %v m; cell levels 0,1,5,16,30 (+2,10,15,17,24 thorough); every exact query also as Typed x {point,path,area,relation} and as Intersection with the tag query #menu=path in both operand orders",
+			bound := fmt.Sprintf("(A) filter worlds at anchor %s: %s (M = true match of every query at the hot spot, R = inside the level-16 covering cell of every query but 30-80 m outside every exact shape, F = 1 km away; a = tagged #t=a; slots have consecutive IDs of one type) = %d sequences x slot type {point,path,area} x {no sentinels, one sentinel match of every geometry type + relation + collection in a later namespace}; each as a one-site world of kinds %v, and in compact worlds of %d sites (consecutive sequences, sites 40 cells apart) = %d worlds; per site %d spatial queries (cap 20 m, level-20 cell, point, polyline, multipolygon of 1 and of 2 polygons, intersects-feature point/path/area sentinel; the last three only with sentinels) x %d forms without / %d with sentinels (quick: bare, Typed x {point,path,area,relation,collection}, Intersection with #t=a and with #e=y (all features) in both operand orders, Union with #t=a in both orders, Typed[slot type] over those six, Intersection of Typed[slot type] with #t=a in both orders, Intersection in both orders with a second cap holding R slots 0..2; thorough: also Union with #e=y, Union of Typed with #t=a, Union with the second cap, and with sentinels the nesting for all three geometry types). (B) %d anchor cells (level 16; thorough also levels 8, 12, 20, 24) x %d world kinds %v x ~%d queries per scene; ~%d features per scene; cap radii %v m; cell levels 0,1,5,16,30 (+2,10,15,17,24 thorough); every exact query also as Typed x {point,path,area,relation} and as Intersection with the tag query #menu=path in both operand orders. (C) straddle scenes (%d cases): home cell = the level-16 cell of anchors %v; for each of its 4 edge and 4 corner neighbours n: paths of 3 and 4 vertices (open, closed, by point references), a triangle area and a 2-vertex control path with the end vertices ~5 m inside the home cell and the middle vertex/vertices ~10 m inside n, and the reverse (ends in n, middle in the home cell) = %d features per scene; %d queries per scene (cap 3 m, point, cells of levels 16..20, 4 m square, each only around the poking vertex and only in the home cell; cap 12 m, two level-20 cells, two level-16 cells, 24 m square on both sides) x %d world kinds, each also in the wrapped forms of (B)",
 				as[0].name, seqs, np, fwTinyKinds, fwGroup, nfw, nq, len(fwWrappers(tier, fPoint, false)), len(fwWrappers(tier, fPoint, true)),
-				len(as), len(kinds), kinds, len(qs[0]), nf/len(as), capRadiiM)
+				len(as), len(kinds), kinds, nBq, nBf, capRadiiM,
+				len(cases)-nB, sNames, nSf, nSq, len(kinds))
 			return kit.FuncSpace{N: nfw + int64(len(cases)), F: func(i int64) kit.Result {
 				if i < nfw {
 					return runFilterCase(geos, tier, &fws[i], i)
